@@ -56,3 +56,59 @@ func TestOne(t *testing.T) {
 	}
 	fmt.Println(res.Final)
 }
+
+// TestWorker runs the job in $VERIF_JOB (a JSON file) and writes the partial result.
+func TestWorker(t *testing.T) {
+	path := os.Getenv("VERIF_JOB")
+	if path == "" {
+		t.Skip("no VERIF_JOB")
+	}
+	var job Job
+	readJSON(path, &job)
+	p := runEngineJob(t, job)
+	writeJSON(job.Out, p)
+}
+
+// TestMinimize minimises the failure in $VERIF_FAILURE and writes a replay file to $VERIF_OUT.
+func TestMinimize(t *testing.T) {
+	path := os.Getenv("VERIF_FAILURE")
+	if path == "" {
+		t.Skip("no VERIF_FAILURE")
+	}
+	var f Failure
+	readJSON(path, &f)
+	budget := time.Duration(envInt("VERIF_MIN_SEC", 60)) * time.Second
+	r := minimizeEngine(t, f, budget)
+	if r == nil {
+		fmt.Println("MINIMIZE: not reproducible from explicit steps")
+		os.Exit(3)
+	}
+	writeJSON(os.Getenv("VERIF_OUT"), r)
+	fmt.Printf("MINIMIZE: %d steps\n", len(r.Steps))
+}
+
+// TestReplay re-executes $VERIF_REPLAY; prints REPRODUCED or NOT-REPRODUCED.
+func TestReplay(t *testing.T) {
+	path := os.Getenv("VERIF_REPLAY")
+	if path == "" {
+		t.Skip("no VERIF_REPLAY")
+	}
+	var r Replay
+	readJSON(path, &r)
+	ok, hash, detail, trace := replayEngine(t, &r)
+	if os.Getenv("VERIF_V") != "" {
+		for _, l := range trace {
+			fmt.Println(l)
+		}
+	}
+	if ok && hash == r.Expect.TraceHash {
+		fmt.Printf("REPRODUCED check=%s disc=%q hash=%x\n%s\n", r.Check, r.Disc, hash, detail)
+		return
+	}
+	if ok {
+		fmt.Printf("REPRODUCED-DIFFERENT-TRACE check=%s hash=%x expected=%x\n", r.Check, hash, r.Expect.TraceHash)
+		os.Exit(4)
+	}
+	fmt.Printf("NOT-REPRODUCED check=%s\n", r.Check)
+	os.Exit(5)
+}
